@@ -25,10 +25,11 @@ import (
 )
 
 type c13Place struct {
-	H    []int `json:"h"`    // host numbers (distinct)
-	W    []int `json:"w"`    // weights 0..100, sum > 0
-	P    []int `json:"p"`    // permutation of the configuration
-	Drop int   `json:"drop"` // node left out in the second configuration (-1: none)
+	H    []int `json:"h"`             // host numbers (distinct)
+	W    []int `json:"w"`             // weights 0..100 (a few negative: TotalWeights counts them as 0), at least one > 0
+	Dup  []int `json:"dup,omitempty"` // [i, w]: a further entry at the END of every configuration repeats the host of node i with weight w (same node identity: the later setting replaces the earlier one)
+	P    []int `json:"p"`             // permutation of the configuration
+	Drop int   `json:"drop"`          // node left out in the second configuration (-1: none)
 	KS   int   `json:"ks"`
 }
 
@@ -43,7 +44,7 @@ func c13PlaceGen(rt *rapid.T) c13Place {
 		w := 100
 		switch rapid.IntRange(0, 5).Draw(rt, "wsel") {
 		case 0:
-			w = 0
+			w = rapid.SampledFrom([]int{0, 0, 0, 0, 0, -1, -30, -100}).Draw(rt, "w0")
 		case 1, 2:
 			w = rapid.IntRange(1, 100).Draw(rt, "w")
 		}
@@ -61,9 +62,18 @@ func c13PlaceGen(rt *rapid.T) c13Place {
 		idx[i] = i
 	}
 	c.P = rapid.Permutation(idx).Draw(rt, "perm")
+	if n > 1 && rapid.Uint64().Draw(rt, "dup")%6 == 5 {
+		c.Dup = []int{rapid.IntRange(0, n-1).Draw(rt, "dupof"), rapid.SampledFrom([]int{0, 0, 1, 50, 100, -1}).Draw(rt, "dupw")}
+	}
 	if n > 1 {
 		d := rapid.IntRange(0, n-1).Draw(rt, "drop")
-		if pos > 1 || c.W[d] == 0 { // the remaining configuration keeps a positive total weight
+		rest := 0 // New exits the process when no entry has a positive weight
+		for i, w := range c.W {
+			if i != d && w > 0 {
+				rest++
+			}
+		}
+		if rest > 0 {
 			c.Drop = d
 		}
 	}
@@ -78,6 +88,9 @@ func c13Conf(c c13Place, order []int, drop int) cache.ClusterConfig {
 			continue
 		}
 		conf = append(conf, cache.NodeConfig{Config: redis.Config{Host: c13Addr(c.H[i]), Type: redis.NodeType}, Weight: c.W[i]})
+	}
+	if len(c.Dup) == 2 && c.Dup[0] != drop {
+		conf = append(conf, cache.NodeConfig{Config: redis.Config{Host: c13Addr(c.H[c.Dup[0]]), Type: redis.NodeType}, Weight: c.Dup[1]})
 	}
 	return conf
 }
@@ -111,29 +124,43 @@ func c13PlaceInterp(c c13Place) (v kit.Verdict) {
 	a := New(c13Conf(c, ident, -1))
 	b := New(c13Conf(c, c.P, -1))
 	ref := hash.NewConsistentHash()
+	eff := append([]int{}, c.W...) // the weight that counts: the last entry of a host
 	for i, h := range c.H {
 		ref.AddWithWeight(c13Addr(h), c.W[i])
+	}
+	if len(c.Dup) == 2 {
+		ref.AddWithWeight(c13Addr(c.H[c.Dup[0]]), c.Dup[1])
+		eff[c.Dup[0]] = c.Dup[1]
 	}
 	var d Store
 	if c.Drop >= 0 {
 		d = New(c13Conf(c, ident, c.Drop))
 	}
-	positive := 0
-	for _, w := range c.W {
+	positive, negative := 0, 0
+	for _, w := range eff {
 		if w > 0 {
 			positive++
+		} else if w < 0 {
+			negative++
 		}
+	}
+	dropPositive := positive // positive nodes of the configuration without node Drop
+	if c.Drop >= 0 && eff[c.Drop] > 0 {
+		dropPositive--
 	}
 	classes := map[string]bool{"nodes:" + strconv.Itoa(n): true}
 	moved := 0
 	for k := 0; k < 300; k++ {
 		key := "user:" + strconv.Itoa(c.KS) + ":" + strconv.Itoa(k)
 		i, what := place(a, key)
-		if i < 0 {
-			return v.Failf("key %q: no configured node (%s)", key, what)
+		if i == -2 || (i == -1 && positive > 0) {
+			return v.Failf("key %q: no configured node (%s) although %d node(s) of positive weight are configured", key, what, positive)
 		}
-		if c.W[i] == 0 {
+		if i >= 0 && (eff[i] == 0 || (positive == 0 && negative == 0)) {
 			return v.Failf("key %q placed on %s, configured with weight 0", key, what)
+		}
+		if i >= 0 && eff[i] < 0 {
+			classes["negative-weight-node-holds-keys"] = true
 		}
 		if j, _ := place(a, key); j != i {
 			return v.Failf("key %q placed on node %d, then on node %d", key, i, j)
@@ -142,12 +169,18 @@ func c13PlaceInterp(c c13Place) (v kit.Verdict) {
 			return v.Failf("key %q: node %d (%s) with the configuration as given, node %d (%s) with the same nodes in order %v", key, i, what, j, w2, c.P)
 		}
 		x, ok := ref.Get(key)
-		if !ok || x.(string) != what {
+		if i == -1 {
+			if ok {
+				return v.Failf("key %q: the store chooses no node, a ConsistentHash with the same addresses and weights chooses %v", key, x)
+			}
+		} else if !ok || x.(string) != what {
 			return v.Failf("key %q: store chooses %s, a ConsistentHash with the same addresses and weights chooses %v", key, what, x)
 		}
 		if d != nil {
 			j, w2 := place(d, key)
-			if j < 0 || j == c.Drop {
+			if j == -1 && dropPositive == 0 {
+				// no node of positive weight is left: absence is right (with negative weights: admissible)
+			} else if j < 0 || j == c.Drop {
 				return v.Failf("key %q: without node %d the store chooses %d (%s)", key, c.Drop, j, w2)
 			}
 			if j != i {
@@ -163,18 +196,29 @@ func c13PlaceInterp(c c13Place) (v kit.Verdict) {
 		if moved > 0 {
 			classes["drop-moved"] = true
 		}
-		if c.W[c.Drop] == 0 {
+		if eff[c.Drop] == 0 {
 			classes["drop-zero-weight"] = true
 		}
 	}
-	for _, w := range c.W {
+	for _, w := range eff {
 		if w == 0 {
 			classes["zero-weight"] = true
+		} else if w < 0 {
+			classes["negative-weight"] = true
 		} else if w < 100 {
 			classes["weighted"] = true
 		}
 	}
-	v.NonTrivial = d != nil && c.W[c.Drop] > 0 && positive >= 3
+	if len(c.Dup) == 2 {
+		classes["duplicate-host"] = true
+		if c.Dup[1] != c.W[c.Dup[0]] {
+			classes["duplicate-host:reweighted"] = true
+		}
+		if positive == 0 {
+			classes["duplicate-host:no-positive-node-left"] = true
+		}
+	}
+	v.NonTrivial = d != nil && eff[c.Drop] > 0 && positive >= 3
 	for k := range classes {
 		v.Classes = append(v.Classes, k)
 	}
